@@ -190,6 +190,14 @@ class VRange(V):
         self.start, self.stop, self.step = start, stop, step
 
 
+class VSeq(V):
+    """a lazily described finite sequence: length + element function (views, zips, comprehensions)"""
+    __slots__ = ('length', 'get')
+
+    def __init__(self, length, get):
+        self.length, self.get = length, get
+
+
 class VUnknown(V):
     """a havocked value of unknown sort (result of an unmodelled call).  Any use taints the path."""
     __slots__ = ('why',)
